@@ -674,7 +674,9 @@ wait:
 		}
 	}
 	// is data writing still on, now that every Stop call has returned?
-	writingLeft := len(pending) == 0 && finalStopDone && ds.WritingIsActive()
+	// (read from the reported state, not through WritingIsActive, which is the predicate the code itself uses to decide)
+	wsLeft := ds.ComputeWritingState()
+	writingLeft := len(pending) == 0 && finalStopDone && wsLeft.Active
 	// restart probe: after everything has returned the same source object must start and stop again
 	probe := "skipped"
 	if len(pending) == 0 && finalStopDone {
